@@ -103,9 +103,13 @@ def gen_case(rng):
                 b=rng.randint(1, 5), seed=rng.randrange(2**31), steps=steps, fill=rng.randint(1, 4))
 
 
-def drop(st):
-    """a store taken out of the pool is DELETED (its file would otherwise be picked up again, with its old
-    content, by a later add_store of the same name on a disk pool)"""
+def drop(st, keep_file=False):
+    """a store taken out of the pool is DELETED when a later step adds a store of the same name again (its file would otherwise be
+    picked up, with its old content, by that add_store on a disk pool); otherwise the user just leaves the file where it is"""
+    if keep_file:
+        if hasattr(st, 'close'):
+            st.close()
+        return
     if hasattr(st, 'delete'):
         st.delete()
     elif hasattr(st, 'close'):
@@ -163,6 +167,7 @@ def one(ctx, case, tmp, reqs, meta):
         ctx.count('step', step)
         where = dict(case, at_step=si)
         stores_now = [s for s in pool.stores]
+        keep = 'add-store' not in case['steps'][si + 1:]          # nobody re-adds a removed store later: its file stays on disk
         if step == 'extend':
             nb += case['b'] % 3 + 1
         elif step == 'add-store':
@@ -173,19 +178,19 @@ def one(ctx, case, tmp, reqs, meta):
             cands = [n for n in pool.stores if n in ('d', 'S0', 'S1') and len(pool.stores) > 1]
             if cands:
                 st = pool.remove_store(cands[0])
-                drop(st)
+                drop(st, keep)
         elif step == 'replace-summary':
             stag += 1
             # a changed summary invalidates what was computed FROM it: those stores are dropped by the user
             for n in [s for s in list(pool.stores) if s.startswith('S') or s == 'd']:
                 st = pool.remove_store(n)
-                drop(st)
+                drop(st, keep)
             m = make_model(case, calls, stag, dtag)
         elif step == 'replace-distance':
             dtag += 1
             if 'd' in pool.stores:
                 st = pool.remove_store('d')
-                drop(st)
+                drop(st, keep)
             m = make_model(case, calls, stag, dtag)
         elif step == 'clear':
             pool.clear()
@@ -333,7 +338,13 @@ def process(ctx, n):
         for _ in range(n):
             if ctx.enough():
                 break
-            one(ctx, gen_case(ctx.rng), tmp, reqs, meta)
+            case = gen_case(ctx.rng)
+            if _ < 4:
+                # every run: a disk pool whose SET OF STORES changes between two saves (the removed store's file stays on disk),
+                # then save / close / open and a further run
+                case.update(disk=True, stores=['S0', 'd', 'sim'] if _ % 2 else ['d', 'sim'],
+                            steps=['fill', ['reopen', 'save'][_ % 2], ['replace-distance', 'remove-store'][_ // 2], 'reopen', 'rerun'])
+            one(ctx, case, tmp, reqs, meta)
     finally:
         shutil.rmtree(tmp, ignore_errors=True)
     if ctx.driver_ok and reqs:
